@@ -14,6 +14,7 @@ theorem denF_fuel (es : List Expr) : ∀ n m i, i < n → i < m → denF n es i 
       split
       · rfl
       · rfl
+      · rfl
       · split
         · rw [ih m _ (by omega) (by omega)]
         · rfl
@@ -28,6 +29,13 @@ theorem thunks_get {hp : List Cell} {i : Nat} {c : Cell} (h : hp[i]? = some c) :
 theorem den_const {hp : List Cell} {i : Nat} {v : Int}
     (h : (thunks hp)[i]? = some (.const v)) : den hp i = v := by
   simp only [den, denF, h]
+
+theorem den_val {hp : List Cell} {i : Nat} {v : Int}
+    (h : (thunks hp)[i]? = some (.val v)) : den hp i = v := by
+  simp only [den, denF, h]
+
+theorem val_or_not (e : Expr) : (∃ v, e = .val v) ∨ ∀ v, e ≠ .val v := by
+  cases e <;> simp
 
 theorem den_app_lt {hp : List Cell} {i s : Nat} {f : Int → Int}
     (h : (thunks hp)[i]? = some (.app f s)) (hs : s < i) : den hp i = f (den hp s) := by
@@ -58,8 +66,12 @@ theorem den_congr {hp hp' : List Cell} (h : thunks hp' = thunks hp) (j : Nat) :
     den hp' j = den hp j := by
   simp only [den, h]
 
+/-- A thunk cell (`Lazy::new`) has run at most once, and exactly when it is memoised; an
+`of_value` cell never runs and holds its value from the start; a memo is the denotation. -/
 def CellOK (d : Int) (c : Cell) : Prop :=
-  c.runs ≤ 1 ∧ (c.runs = 1 ↔ c.value.isSome = true) ∧ ∀ v, c.value = some v → v = d
+  c.runs ≤ 1 ∧ ((∀ v, c.thunk ≠ .val v) → (c.runs = 1 ↔ c.value.isSome = true)) ∧
+    (∀ v, c.value = some v → v = d) ∧
+    (∀ v, c.thunk = .val v → c.runs = 0 ∧ c.value = some v)
 
 def HeapInv (hp : List Cell) : Prop := ∀ j c, hp[j]? = some c → CellOK (den hp j) c
 
@@ -88,13 +100,19 @@ theorem set_memo {hp : List Cell} {i : Nat} {c : Cell} {d : Int}
     · subst_vars
       cases hj
       have := hinv _ _ hc
-      obtain ⟨h1, h2, _⟩ := this
+      obtain ⟨h1, h2, _, h4⟩ := this
+      have hnv : ∀ v, c.thunk ≠ .val v := by
+        intro v e
+        have := (h4 v e).2
+        rw [hv] at this; cases this
+      have h2 := h2 hnv
       rw [hv] at h2
       simp at h2
-      refine ⟨?_, ?_, ?_⟩
+      refine ⟨?_, ?_, ?_, ?_⟩
       · simp [memo]; omega
-      · simp [memo]; omega
+      · intro _; simp [memo]; omega
       · intro v hv'; simp [memo] at hv'; omega
+      · intro v e; exact absurd e (hnv v)
     · exact hinv _ _ hj
   · simp [hlt]
 
@@ -119,7 +137,7 @@ theorem forceC_spec : ∀ fuel hp i, i < fuel → HeapInv hp →
       · rename_i v hv
         refine ⟨rfl, hinv, fun _ _ => rfl, ?_⟩
         intro _
-        have := (hinv _ _ hc).2.2 v hv
+        have := (hinv _ _ hc).2.2.1 v hv
         exact ⟨this, c, hc, by rw [hv, this]⟩
       · rename_i hv
         have htc := thunks_get hc
@@ -188,6 +206,9 @@ theorem forceC_spec : ∀ fuel hp i, i < fuel → HeapInv hp →
             refine ⟨x, y, ?_, ?_⟩
             · intro j hj; rw [List.getElem?_set_ne (by omega)]
             · intro _; exact ⟨hd.symm, _, e, by simp [memo, hd]⟩
+        · rename_i v hth
+          have := ((hinv _ _ hc).2.2.2 v hth).2
+          rw [hv] at this; cases this
 
 theorem forceC_memoised {hp : List Cell} {i : Nat} {c : Cell} {v : Int} (n : Nat)
     (h1 : hp[i]? = some c) (h2 : c.value = some v) : forceC (n+1) hp i = (hp, v) := by
@@ -202,6 +223,7 @@ theorem denF_append (es : List Expr) (e : Expr) :
     intro i hi
     simp only [denF, List.getElem?_append_left hi]
     split
+    · rfl
     · rfl
     · rfl
     · split
@@ -256,8 +278,22 @@ theorem step_spec (s : State) (op : Op) (hinv : Inv s) :
       · rw [List.getElem?_append_right hge] at hj
         cases hk : j - s.heap.length with
         | zero =>
+          have hj' : j = s.heap.length := by omega
+          subst hj'
           rw [hk] at hj; simp at hj; subst hj
-          exact ⟨by simp, by simp, by intro v hv; simp at hv⟩
+          have htc : (thunks (s.heap ++ [(⟨e, initValue e, 0⟩ : Cell)]))[s.heap.length]? = some e := by
+            simp [thunks]
+          refine ⟨by simp, ?_, ?_, ?_⟩
+          · intro hnv
+            cases e <;> simp [initValue]
+            exact hnv _ rfl
+          · intro v hv
+            cases e <;> simp [initValue] at hv
+            subst hv
+            exact (den_val htc).symm
+          · intro v he
+            simp at he; subst he
+            simp [initValue]
         | succ k => rw [hk] at hj; simp at hj
     · intro h i hli
       rw [lookup_eq] at hli
@@ -319,15 +355,36 @@ theorem Inv_reach (ops : List Op) : Inv (runOps State.empty ops) :=
 /-- 1. The thunk of every cell is executed at most once, and exactly when it has been forced. -/
 theorem runs_le_one (ops : List Op) (i : Nat) (c : Cell)
     (h : (runOps State.empty ops).heap[i]? = some c) :
-    c.runs ≤ 1 ∧ (c.runs = 1 ↔ c.value.isSome = true) :=
-  let ⟨a, b, _⟩ := (Inv_reach ops).1 i c h
-  ⟨a, b⟩
+    c.runs ≤ 1 ∧ (c.runs = 1 → c.value.isSome = true) ∧
+      (c.value.isSome = true → c.runs = 1 ∨ ∃ v, c.thunk = .val v) := by
+  obtain ⟨a, b, _, d⟩ := (Inv_reach ops).1 i c h
+  refine ⟨a, ?_, ?_⟩
+  · intro hr
+    rcases val_or_not c.thunk with ⟨v, e⟩ | hnv
+    · have := (d v e).1; omega
+    · exact (b hnv).mp hr
+  · intro hs
+    rcases val_or_not c.thunk with ⟨v, e⟩ | hnv
+    · exact Or.inr ⟨v, e⟩
+    · exact Or.inl ((b hnv).mpr hs)
+
+/-- 1'. For a cell made by `Lazy::new` (not `of_value`): run exactly when memoised. -/
+theorem runs_iff_forced (ops : List Op) (i : Nat) (c : Cell)
+    (h : (runOps State.empty ops).heap[i]? = some c) (hnv : ∀ v, c.thunk ≠ .val v) :
+    c.runs = 1 ↔ c.value.isSome = true :=
+  ((Inv_reach ops).1 i c h).2.1 hnv
+
+/-- 1''. An `of_value` cell never runs anything and holds its value from the start. -/
+theorem of_value_never_runs (ops : List Op) (i : Nat) (c : Cell) (v : Int)
+    (h : (runOps State.empty ops).heap[i]? = some c) (hth : c.thunk = .val v) :
+    c.runs = 0 ∧ c.value = some v :=
+  ((Inv_reach ops).1 i c h).2.2.2 v hth
 
 /-- 2. A memoised value is always the denotation of its cell. -/
 theorem value_is_den (ops : List Op) (i : Nat) (c : Cell) (v : Int)
     (h : (runOps State.empty ops).heap[i]? = some c) (hv : c.value = some v) :
     v = den (runOps State.empty ops).heap i :=
-  ((Inv_reach ops).1 i c h).2.2 v hv
+  ((Inv_reach ops).1 i c h).2.2.1 v hv
 
 /-- 3a. `force h` returns the denotation of the handle's cell. -/
 theorem force_returns_den (s : State) (h i : Nat) (hinv : Inv s) (hl : lookup s h = some i) :
@@ -436,5 +493,13 @@ def demoOps2 : List Op :=
 example : outputs State.empty demoOps2 = [none, none, none, none, some 12, some 4, none] := by
   decide
 example : (runOps State.empty demoOps2).heap.map (·.runs) = [1, 1, 1] := by decide
+
+/-- `of_value`: nothing runs for the value cell, the mapped cell over it runs once. -/
+def demoOps3 : List Op :=
+  [.new (.val 5), .new (.app (· + 1) 0), .force 1, .force 0]
+
+example : outputs State.empty demoOps3 = [none, none, some 6, some 5] := by decide
+example : (runOps State.empty demoOps3).heap.map (·.runs) = [0, 1] := by decide
+example : (runOps State.empty demoOps3).heap.map (·.value) = [some 5, some 6] := by decide
 
 end SodiumVerif.LazyHeap
